@@ -798,4 +798,237 @@ theorem urlLoop_render (p : UParts) (h : wf p = true)
         rw [hsv]; simp only [List.length_append, List.length_cons]; omega
       simp only [U3, U2, hsch, hl, List.length_cons, Option.isSome_some]
 
+/-! ## `http_parse_host` on the server section of `render p` -/
+
+def credPart (p : UParts) : Bytes := match p.cred with | some c => credText c ++ [64] | none => []
+def hostOpen (p : UParts) : Nat := match p.host with | .name _ => 0 | .v6 _ => 1
+
+theorem server_eq (p : UParts) : server p = credPart p ++ (p.host.render ++ portSeg p) := rfl
+
+theorem hostLoop_cred (p : UParts) (h : wf p = true) (u : Url) (off : Nat) (rest : Bytes)
+    (hp : off + (credPart p).length < 65536) :
+    hostLoop u (if p.cred.isSome then .userinfoStart else .hostStart) off (credPart p ++ rest) =
+      hostLoop (match p.cred with | some c => u.put .userinfo ⟨off, (credText c).length⟩ | none => u) .hostStart
+        (off + (credPart p).length) rest := by
+  have h2 := (wf_parts p h).2.1
+  unfold credPart at hp ⊢
+  cases hc : p.cred with
+  | none => simp
+  | some c =>
+    rw [hc] at h2 hp
+    simp only [Bool.and_eq_true, List.all_eq_true] at h2
+    simp only [Option.isSome_some, if_true]
+    -- credText c = x0 :: xs, all user-info characters
+    have hall : ∀ x ∈ credText c, isUserinfoCharN x.toNat = true := by
+      intro x hx
+      unfold credText at hx
+      simp only [List.mem_append, List.mem_cons] at hx
+      rcases hx with hx | rfl | hx
+      · simpa [isUserinfoChar] using (h2.1 x hx).1
+      · decide
+      · simpa [isUserinfoChar] using h2.2 x hx
+    cases hct : credText c with
+    | nil => unfold credText at hct; simp at hct
+    | cons x0 xs =>
+      rw [hct] at hall
+      simp only [hct, List.length_append, List.length_cons, List.length_nil] at hp
+      have := hostLoop_userinfo x0 xs rest u off (hall x0 (by simp)) (fun x hx => hall x (by simp [hx])) (by omega)
+      simp only [List.cons_append, List.append_assoc, List.nil_append, List.length_append, List.length_cons, List.length_nil]
+      rw [this]
+      congr 1
+
+theorem hostLoop_hostpart (p : UParts) (h : wf p = true) (u : Url) (pos : Nat) (rest : Bytes)
+    (hp : pos + p.host.render.length < 65536) (hl : u.host.len = 0) :
+    hostLoop u .hostStart pos (p.host.render ++ rest) =
+      hostLoop { u with host := ⟨pos + hostOpen p, p.host.text.length⟩ } (match p.host with | .name _ => .host | .v6 _ => .v6End)
+        (pos + p.host.render.length) rest := by
+  have h3 := (wf_parts p h).2.2.1
+  unfold hostOpen HostForm.render HostForm.text at *
+  cases hh : p.host with
+  | name x =>
+    rw [hh] at h3 hp
+    simp only [Bool.and_eq_true, List.all_eq_true] at h3
+    cases x with
+    | nil => simp at h3
+    | cons h0 hs =>
+      simp only [List.length_cons] at hp
+      have := hostLoop_name h0 hs rest u pos (by simpa [isHostChar] using h3.2 h0 (by simp))
+        (fun c hc => by simpa [isHostChar] using h3.2 c (by simp [hc])) (by omega) hl
+      simpa using this
+  | v6 x =>
+    rw [hh] at h3 hp
+    simp only [Bool.and_eq_true, List.all_eq_true] at h3
+    cases x with
+    | nil => simp at h3
+    | cons v0 vs =>
+      simp only [List.length_cons, List.length_append, List.length_nil, List.cons_append, List.nil_append] at hp
+      have hv : ∀ c ∈ v0 :: vs, (isHexN c.toNat || c.toNat == 58 || c.toNat == 46) = true := by
+        intro c hc; simpa [isHex] using h3.2 c hc
+      have := hostLoop_v6 v0 vs rest u pos (hv v0 (by simp)) (fun c hc => hv c (by simp [hc])) (by omega) hl
+      simp only [List.cons_append, List.nil_append, List.append_assoc, List.length_cons, List.length_append, List.length_nil]
+      rw [this]
+      congr 1
+      omega
+
+theorem hostLoop_portpart (p : UParts) (u : Url) (s : HS) (pos : Nat) (hs : s = .host ∨ s = .v6End)
+    (hp : pos + (portSeg p).length < 65536) :
+    hostLoop u s pos (portSeg p) =
+      (match p.port with | some n => u.put .port ⟨pos + 1, (decimal n).length⟩ | none => u) := by
+  unfold portSeg at hp ⊢
+  cases hpo : p.port with
+  | none => simp [hostLoop]
+  | some n =>
+    rw [hpo] at hp
+    simp only [List.length_cons] at hp
+    cases hd : decimal n with
+    | nil => exact absurd hd (decimal_ne_nil n)
+    | cons d0 ds =>
+      have hall := decimal_digits n
+      rw [hd] at hall hp
+      simp only [List.length_cons] at hp
+      have := hostLoop_port d0 ds u s pos hs (hall d0 (by simp)) (fun c hc => hall c (by simp [hc])) (by omega)
+      simp only [hd]
+      rw [this]
+      simp
+
+/-! ## `http_parser_parse_url` on `render p` -/
+
+def off0 (p : UParts) : Nat := p.scheme.length + 3
+def posA (p : UParts) : Nat := off0 p + (credPart p).length
+def posB (p : UParts) : Nat := posA p + p.host.render.length
+
+def credPut (p : UParts) (u : Url) : Url :=
+  match p.cred with | some c => u.put .userinfo ⟨off0 p, (credText c).length⟩ | none => u
+def hostPut (p : UParts) (u : Url) : Url := { u with host := ⟨posA p + hostOpen p, p.host.text.length⟩ }
+def portPut (p : UParts) (u : Url) : Url :=
+  match p.port with | some n => u.put .port ⟨posB p + 1, (decimal n).length⟩ | none => u
+
+def hostReset (u : Url) : Url := { u with host := ⟨u.host.off, 0⟩ }
+def setPort (u : Url) (n : Nat) : Url := { u with port := n }
+
+/-- the parser's result for `render p` -/
+def UH (p : UParts) : Url :=
+  let v := portPut p (hostPut p (credPut p (hostReset (U3 p))))
+  match p.port with | some n => setPort v n | none => v
+
+/-- the part of `http_parser_parse_url` after the character loop, when scheme and host are present -/
+theorem parseUrl_of_loop (b : Bytes) (l : Loop) (hl : urlLoop {} 0 b = some l) (hs : l.u.hasSchema = true)
+    (hh : l.u.hasHost = true) :
+    parseUrl b =
+      (let u := hostLoop (hostReset l.u) (if l.foundAt then .userinfoStart else .hostStart) l.u.host.off
+        ((b.drop l.u.host.off).take l.u.host.len)
+      if u.hasPort then
+        (if digitsVal 0 (b.drop u.portF.off) > 0xffff then none else some (setPort u (digitsVal 0 (b.drop u.portF.off))))
+      else some u) := by
+  have hcond : (l.u.hasSchema && !(l.u.hasPath && !l.u.hasHost && !l.u.hasQuery && !l.u.hasFragment) && !l.u.hasHost) = false := by
+    rw [hh]; simp
+  have h2 : (l.u.hasSchema && l.u.hasHost) = true := by rw [hs, hh]; rfl
+  unfold parseUrl
+  rw [hl]
+  simp only [hcond, h2, Bool.false_eq_true, if_false, if_true]
+  rfl
+
+theorem hostLoop_server (p : UParts) (h : wf p = true) (u : Url) (hl : u.host.len = 0)
+    (hlen : off0 p + (server p).length < 65536) :
+    hostLoop u (if p.cred.isSome then .userinfoStart else .hostStart) (off0 p) (server p) =
+      portPut p (hostPut p (credPut p u)) := by
+  have hsl : (server p).length = (credPart p).length + (p.host.render.length + (portSeg p).length) := by
+    rw [server_eq]; simp
+  rw [server_eq, hostLoop_cred p h _ (off0 p) _ (by omega)]
+  rw [hostLoop_hostpart p h _ (off0 p + (credPart p).length) _ (by omega) (by cases p.cred <;> simpa [Url.put] using hl)]
+  have hsB : (match p.host with | .name _ => HS.host | .v6 _ => HS.v6End) = .host ∨
+      (match p.host with | .name _ => HS.host | .v6 _ => HS.v6End) = .v6End := by cases p.host <;> simp
+  rw [hostLoop_portpart p _ _ _ hsB (by omega)]
+  rfl
+
+theorem portPut_frame (p : UParts) (u : Url) :
+    (portPut p u).hasPort = (p.port.isSome || u.hasPort) ∧ (portPut p u).port = u.port ∧
+    (∀ n, p.port = some n → (portPut p u).portF = ⟨posB p + 1, (decimal n).length⟩) := by
+  unfold portPut
+  cases p.port <;> simp [Url.put]
+
+theorem hostcred_frame (p : UParts) (u : Url) :
+    (hostPut p (credPut p u)).hasPort = u.hasPort ∧ (hostPut p (credPut p u)).port = u.port := by
+  unfold hostPut credPut
+  cases p.cred <;> simp [Url.put]
+
+theorem U3_frame (p : UParts) :
+    (U3 p).hasSchema = true ∧ (U3 p).hasHost = true ∧ (U3 p).hasPort = false ∧ (U3 p).hasUserinfo = false ∧
+    (U3 p).host = ⟨off0 p, (server p).length⟩ ∧ (U3 p).schema = ⟨0, p.scheme.length⟩ ∧ (U3 p).port = 0 := by
+  unfold U3 U2 tailUrl putOpt off0
+  cases p.path <;> cases p.query <;> cases p.fragment <;> simp [Url.put]
+
+theorem drop_take_mid (pre comp post : Bytes) : ((pre ++ (comp ++ post)).drop pre.length).take comp.length = comp := by
+  simp
+
+theorem render_split (p : UParts) :
+    render p = (p.scheme ++ [58, 47, 47]) ++ (server p ++ tailBytes p.path p.query p.fragment) := by
+  rw [render_eq]; simp
+
+theorem tail_nondigit (p : UParts) (h : wf p = true) (hshape : ¬ (p.path = [] ∧ p.query = none ∧ p.fragment ≠ none)) :
+    tailBytes p.path p.query p.fragment = [] ∨ ∃ c cs, tailBytes p.path p.query p.fragment = c :: cs ∧ isNum c = false := by
+  have hw := wf_parts p h
+  unfold tailBytes seg
+  cases hpa : p.path with
+  | cons c cs =>
+    have h5 := hw.2.2.2.2.1
+    rw [hpa] at h5
+    simp only [Bool.and_eq_true, decide_eq_true_eq] at h5
+    exact Or.inr ⟨c, _, rfl, by simp [isNum, isNumN, h5.1]⟩
+  | nil =>
+    cases hq : p.query with
+    | some q => exact Or.inr ⟨63, _, rfl, by decide⟩
+    | none =>
+      cases hf : p.fragment with
+      | none => exact Or.inl rfl
+      | some f => exact absurd ⟨hpa, hq, by simp [hf]⟩ hshape
+
+theorem parseUrl_render (p : UParts) (h : wf p = true)
+    (hshape : ¬ (p.path = [] ∧ p.query = none ∧ p.fragment ≠ none)) (hlen : (render p).length < 65536) :
+    parseUrl (render p) = some (UH p) := by
+  obtain ⟨s, o, hl⟩ := urlLoop_render p h hshape hlen
+  have hfr := U3_frame p
+  rw [parseUrl_of_loop _ _ hl hfr.1 hfr.2.1]
+  simp only
+  -- the server section is what the host field spans
+  have hsrv : ((render p).drop (U3 p).host.off).take (U3 p).host.len = server p := by
+    rw [hfr.2.2.2.2.1, render_split]
+    have : off0 p = (p.scheme ++ [58, 47, 47]).length := by simp [off0]
+    simp only [this]
+    exact drop_take_mid _ _ _
+  have hoff : (U3 p).host.off = off0 p := by rw [hfr.2.2.2.2.1]
+  rw [hsrv, hoff]
+  have hlen2 : off0 p + (server p).length + (tailBytes p.path p.query p.fragment).length < 65536 := by
+    rw [render_split] at hlen
+    simp only [List.length_append, List.length_cons, List.length_nil, off0] at hlen ⊢
+    omega
+  rw [hostLoop_server p h (hostReset (U3 p)) rfl (by omega)]
+  have hpf := portPut_frame p (hostPut p (credPut p (hostReset (U3 p))))
+  have hcf := hostcred_frame p (hostReset (U3 p))
+  have hr0 : (hostReset (U3 p)).hasPort = false := hfr.2.2.1
+  unfold UH
+  generalize portPut p (hostPut p (credPut p (hostReset (U3 p)))) = v at hpf ⊢
+  cases hpo : p.port with
+  | none =>
+    have : v.hasPort = false := by rw [hpf.1, hcf.1, hpo, hr0]; rfl
+    simp only [this, Bool.false_eq_true, if_false]
+  | some n =>
+    have hhp : v.hasPort = true := by rw [hpf.1, hpo]; rfl
+    have hoff := hpf.2.2 n hpo
+    have h4 := (wf_parts p h).2.2.2.1
+    rw [hpo] at h4
+    simp only [decide_eq_true_eq] at h4
+    have hdrop : (render p).drop (posB p + 1) = decimal n ++ tailBytes p.path p.query p.fragment := by
+      rw [render_split, server_eq]
+      have hps : portSeg p = 58 :: decimal n := by unfold portSeg; rw [hpo]
+      rw [hps]
+      have e1 : posB p + 1 = ((p.scheme ++ [58, 47, 47]) ++ (credPart p ++ (p.host.render ++ [58]))).length := by
+        simp [posB, posA, off0]; omega
+      have e2 : (p.scheme ++ [58, 47, 47]) ++ ((credPart p ++ (p.host.render ++ 58 :: decimal n)) ++ tailBytes p.path p.query p.fragment) =
+          ((p.scheme ++ [58, 47, 47]) ++ (credPart p ++ (p.host.render ++ [58]))) ++ (decimal n ++ tailBytes p.path p.query p.fragment) := by
+        simp
+      rw [e1, e2, List.drop_left]
+    simp only [hhp, if_true, hoff, hdrop, digitsVal_port n _ (tail_nondigit p h hshape)]
+    rw [if_neg (by omega)]
+
 end KsiVerif.Uri
